@@ -35,7 +35,7 @@ PROP = "C20"
 MODNAME = __name__
 
 KINDS = ["entry", "string", "preamble", "ecomment", "icomment"]
-RETURNS = ["same", "none", "empty-list", "empty-tuple", "list1", "list2", "tuple3", "generator", "object", "int0", "false", "list-with-nonblock", "str", "dict"]
+RETURNS = ["same", "none", "empty-list", "empty-tuple", "list1", "list2", "tuple3", "generator", "object", "int0", "false", "list-with-nonblock", "str", "dict", "rename-same"]
 
 
 def kind_of(b):
@@ -57,6 +57,12 @@ def _clone(b, n):
 def make_result(ret, b):
     """What a block probe returns for block b; second value: the expected splice or the string 'TypeError'."""
     if ret == "same":
+        return b, [b]
+    if ret == "rename-same":
+        # the very same instance comes back with another key: the library rebuilt from the results must
+        # treat it under its new key (collisions become duplicate blocks)
+        if hasattr(b, "key"):
+            b.key = "renamed"
         return b, [b]
     if ret == "none":
         return None, []
@@ -347,7 +353,33 @@ def o_write(inp):
     return (None, nontrivial, cls)
 
 
-SUBS = {"parse": o_parse, "write": o_write}
+def o_default_stack_isolation(inp):
+    """The lists returned by default_parse_stack() / default_unparse_stack() belong to the caller: editing them must
+    not change what a later plain parse_string / write_string does.  inp: {"doc": i, "edit": "append"|"pop"|"clear"}"""
+    from bibtexparser.middlewares import default_parse_stack, default_unparse_stack
+
+    text = get_doc(inp["doc"])
+    before_lib = canon(bibtexparser.parse_string(text))
+    before_txt = outcome(lambda: bibtexparser.write_string(bibtexparser.parse_string(text)))
+    for getter in (default_parse_stack, default_unparse_stack):
+        for kwargs in ({}, {"allow_inplace_modification": True}, {"allow_inplace_modification": False}):
+            st_ = getter(**kwargs)
+            if inp["edit"] == "append":
+                st_.append(LibProbe("Z"))
+            elif inp["edit"] == "pop" and st_:
+                st_.pop(0)
+            else:
+                st_.clear()
+    after_lib = canon(bibtexparser.parse_string(text))
+    after_txt = outcome(lambda: bibtexparser.write_string(bibtexparser.parse_string(text)))
+    if after_lib != before_lib:
+        return (("default-parse-stack-shared", harness._short(after_lib, 300), harness._short(before_lib, 300)), True, ("default-stack-isolation",))
+    if after_txt != before_txt:
+        return (("default-unparse-stack-shared", _short_outcome(after_txt), _short_outcome(before_txt)), True, ("default-stack-isolation",))
+    return (None, True, ("default-stack-isolation",))
+
+
+SUBS = {"parse": o_parse, "write": o_write, "isolation": o_default_stack_isolation}
 
 N_DOCS = len(DOC_INTS) + len(HAND_DOCS)
 LIB_PROBES = [{"probe": "lib", "tag": t} for t in "ABC"]
@@ -394,6 +426,12 @@ def w_block_probes(acc, kind_i):
             acc.run("parse", o_parse, {"doc": doc, "parse_stack": [spec, LIB_PROBES[1]], "append_middleware": None, "via": "string"}, True)
 
 
+def w_isolation(acc):
+    for doc in range(N_DOCS):
+        for edit in ("append", "pop", "clear"):
+            acc.run("isolation", o_default_stack_isolation, {"doc": doc, "edit": edit}, True)
+
+
 def w_write_grid(acc, doc_lo, doc_hi):
     sts = stacks(2)
     fmts = [None, {"value_column": "auto", "trailing_comma": True}, {"indent": "", "block_separator": "\n"}]
@@ -431,6 +469,7 @@ def run(chk):
         tasks.append(("w_write_grid", (lo, hi)))
     for k in range(len(KINDS)):
         tasks.append(("w_block_probes", (k,)))
+    tasks.append(("w_isolation", ()))
     n_rand = 40000 if quick else 400000
     shards = 16 if quick else 64
     for s in range(shards):
@@ -453,5 +492,5 @@ def run(chk):
         "order-sensitive members, a non-UTF-8 file with non-ASCII content, a block probe returning something other than one block, "
         "or a file target."
     )
-    chk.required_classes = ["parse:string", "parse:file", "write:string", "write:path", "write:file", "write:stringio", "both-given", ">=2-order-sensitive", "block-probe", "enc:gbk", "enc:utf-16", "enc:latin-1", "non-ascii-file"]
+    chk.required_classes = ["parse:string", "parse:file", "write:string", "write:path", "write:file", "write:stringio", "both-given", ">=2-order-sensitive", "block-probe", "enc:gbk", "enc:utf-16", "enc:latin-1", "non-ascii-file", "default-stack-isolation"]
     chk.assumptions = ["documents contain no carriage return (text-mode file reading translates line endings)", "an empty non-list collection returned by a block middleware (e.g. '') counts as 'empty'; not asserted either way"]
